@@ -4,10 +4,13 @@ import Mathlib.Data.ZMod.Defs
   Property C05, part B: `msm_chunks`, `ChunkedPippenger`, `HashMapPippenger`
   (ec/src/scalar_mul/variable_base/{mod.rs, stream_pippenger.rs}).
 
-  The correctness of the inner `msm_bigint` is the hypothesis `MsmOK G cfg P` ("on scalars in the domain `P`,
-  `msmBigint cfg bases ks = .ok (Σ_{i<min} value ksᵢ • basesᵢ)`"); part A provides it for
-  `P = InRange cfg` (`N` limbs, `u64` limbs, value `< 2^MODULUS_BIT_SIZE`).  Everything below holds for
-  every history of `add` calls and every buffer size (including `0`: never flush, and `1`: flush always).
+  The correctness of the inner `msm_bigint` is the hypothesis `MsmOK G cfg P` ("on scalars in the domain `P`
+  and for `min |bases| |ks| < 2^64`, `msmBigint cfg bases ks = .ok (Σ_{i<min} value ksᵢ • basesᵢ)`"); part A
+  provides it for `P = InRange cfg` (`N` limbs, `u64` limbs, value `< 2^MODULUS_BIT_SIZE`).  The length premise
+  (every Rust slice has a `usize` length; the window-size rule is only modelled there) is the only reason for
+  the `2^64` side conditions below: everything holds for every history of `add` calls and every buffer size
+  (including `0`: never flush, and `1`: always flush) such that the buffer stays a `usize`, i.e.
+  the history is shorter than `2^64` **or** `bufSize` is a non-zero `usize`.
 
   Sums:  `pairSum l = Σ_{(b,k) ∈ l} value k • b`,  `natPairSum l = Σ_{(b,k) ∈ l} k • b`,
          `msmSum bases ks = pairSum (bases.zip ks)`,  `msmSumNat bases ks = natPairSum (bases.zip ks)`.
@@ -25,13 +28,14 @@ variable {G : Type} [AddCommGroup G] {cfg : Cfg} {P : List Nat → Prop}
     whatever the chunking. -/
 theorem msmChunksWith_spec (ok : MsmOK G cfg P) (hrB : cfg.r ≤ B ^ cfg.limbs)
     (hP : ∀ v < cfg.r, P (cfg.intoBigint v)) (step : Nat) (hstep : 0 < step)
-    (bases : List G) (ks : List Nat) (hk : ∀ k ∈ ks, k < cfg.r) :
+    (bases : List G) (ks : List Nat) (hk : ∀ k ∈ ks, k < cfg.r)
+    (hb : step < 2 ^ 64 ∨ ks.length < 2 ^ 64) :
     msmChunksWith step cfg bases ks =
       if ks.length ≤ bases.length then .ok (msmSumNat (bases.drop (bases.length - ks.length)) ks)
       else .panic := by
   split
   · rename_i hlen
-    rw [msmChunksWith_ok ok step hstep bases ks (fun k h => hP k (hk k h)) hlen,
+    rw [msmChunksWith_ok ok step hstep bases ks (fun k h => hP k (hk k h)) hlen hb,
       msmSum_map_intoBigint cfg _ ks (fun k h => lt_of_lt_of_le (hk k h) hrB)]
   · exact msmChunksWith_panic step bases ks (by omega)
 
@@ -47,7 +51,7 @@ theorem msmChunks_spec (ok : MsmOK G cfg P) (hrB : cfg.r ≤ B ^ cfg.limbs)
     msmChunks cfg bases ks =
       if ks.length ≤ bases.length then .ok (msmSumNat (bases.drop (bases.length - ks.length)) ks)
       else .panic :=
-  msmChunksWith_spec ok hrB hP _ (by decide) bases ks hk
+  msmChunksWith_spec ok hrB hP _ (by decide) bases ks hk (Or.inl (by decide))
 
 /-- equal lengths: `msm_chunks` is the plain MSM -/
 theorem msmChunks_eq_len (ok : MsmOK G cfg P) (hrB : cfg.r ≤ B ^ cfg.limbs)
@@ -61,9 +65,12 @@ theorem msmChunks_eq_len (ok : MsmOK G cfg P) (hrB : cfg.r ≤ B ^ cfg.limbs)
 /-- `add` preserves the invariant "`result + msm(buffer)` = sum of all pairs added so far" (flushing when the
     buffer reaches `bufSize`), for every `bufSize`, and never panics -/
 theorem Chunked.add_inv (ok : MsmOK G cfg P) {s : Chunked G} {total : G}
-    (h : Chunked.Inv P s total) (b : G) (k : List Nat) (hk : P k) :
-    ∃ s', s.add cfg b k = .ok s' ∧ s'.bufSize = s.bufSize ∧ Chunked.Inv P s' (total + value k • b) :=
-  Ark.Msm.Chunked.add_inv ok h b k hk
+    (h : Chunked.Inv P s total) (b : G) (k : List Nat) (hk : P k)
+    (hlen : s.scalarsBuffer.length + 1 < 2 ^ 64) :
+    ∃ s', s.add cfg b k = .ok s' ∧ s'.bufSize = s.bufSize ∧
+      s'.scalarsBuffer.length ≤ s.scalarsBuffer.length + 1 ∧
+      Chunked.Inv P s' (total + value k • b) :=
+  Ark.Msm.Chunked.add_inv ok h b k hk hlen
 
 /-- the invariant holds initially with total `0` -/
 theorem Chunked.new_inv (bufSize : Nat) : Chunked.Inv P (Chunked.new bufSize : Chunked G) 0 :=
@@ -77,16 +84,19 @@ theorem Chunked.add_buffer_lt {s s' : Chunked G} (b : G) (k : List Nat)
 
 /-- `finalize` returns the invariant's total -/
 theorem Chunked.finalize_spec (ok : MsmOK G cfg P) {s : Chunked G} {total : G}
-    (h : Chunked.Inv P s total) : s.finalize cfg = .ok total :=
-  Ark.Msm.Chunked.finalize_inv ok h
+    (h : Chunked.Inv P s total) (hlen : s.scalarsBuffer.length < 2 ^ 64) :
+    s.finalize cfg = .ok total :=
+  Ark.Msm.Chunked.finalize_inv ok h hlen
 
 /-- monotone history: from any state satisfying the invariant, any further sequence of `add`s succeeds,
     keeps `bufSize`, and re-establishes the invariant with the total increased by the sum of the new pairs -/
 theorem Chunked.history_spec (ok : MsmOK G cfg P) (adds : List (G × List Nat)) (s : Chunked G)
-    (total : G) (h : Chunked.Inv P s total) (hP : ∀ a ∈ adds, P a.2) :
+    (total : G) (h : Chunked.Inv P s total) (hP : ∀ a ∈ adds, P a.2)
+    (hB : s.scalarsBuffer.length + adds.length < 2 ^ 64 ∨
+          (s.bufSize < 2 ^ 64 ∧ s.scalarsBuffer.length < s.bufSize)) :
     ∃ s', Chunked.addAll cfg s adds = .ok s' ∧ s'.bufSize = s.bufSize ∧
-      Chunked.Inv P s' (total + pairSum adds) :=
-  Chunked.addAll_inv ok adds s total h hP
+      s'.scalarsBuffer.length < 2 ^ 64 ∧ Chunked.Inv P s' (total + pairSum adds) :=
+  Chunked.addAll_inv ok adds s total h hP hB
 
 /-- histories compose (`addAll` is the fold of `add` that `run` performs before `finalize`) -/
 theorem Chunked.run_eq_addAll (bufSize : Nat) (adds : List (G × List Nat)) :
@@ -96,16 +106,17 @@ theorem Chunked.run_eq_addAll (bufSize : Nat) (adds : List (G × List Nat)) :
 
 /-- `new(bufSize)`, any sequence of `add`s with scalars in the domain, `finalize`: the result is `Σ value k • b` -/
 theorem Chunked.run_spec (ok : MsmOK G cfg P) (bufSize : Nat) (adds : List (G × List Nat))
-    (hP : ∀ a ∈ adds, P a.2) : Chunked.run cfg bufSize adds = .ok (pairSum adds) :=
-  Chunked.run_ok ok bufSize adds hP
+    (hP : ∀ a ∈ adds, P a.2) (hB : adds.length < 2 ^ 64 ∨ (0 < bufSize ∧ bufSize < 2 ^ 64)) :
+    Chunked.run cfg bufSize adds = .ok (pairSum adds) :=
+  Chunked.run_ok ok bufSize adds hP hB
 
 /-! ## 14. `HashMapPippenger` -/
 
 /-- under `MsmOK` the inner MSM does not depend on the order of the `(base, scalar)` pairs -/
 theorem msmBigint_perm (ok : MsmOK G cfg P) {l l' : List (G × List Nat)} (h : l.Perm l')
-    (hP : ∀ a ∈ l, P a.2) :
+    (hP : ∀ a ∈ l, P a.2) (hlen : l.length < 2 ^ 64) :
     msmBigint cfg (l.map (·.1)) (l.map (·.2)) = msmBigint cfg (l'.map (·.1)) (l'.map (·.2)) :=
-  Ark.Msm.msmBigint_perm ok h hP
+  Ark.Msm.msmBigint_perm ok h hP hlen
 
 variable [DecidableEq G]
 
@@ -115,6 +126,7 @@ theorem upsert_spec (r : Nat) (base : G) (k : Nat) (h : r • base = 0) (buf : L
     natPairSum (upsert r base k buf) = natPairSum buf + k • base :=
   upsert_sum r base k h buf
 
+omit [AddCommGroup G] in
 /-- … as a map: the entry of `base` becomes `(old + k) mod r` (`old = 0` if absent), the other entries are
     untouched, keys stay distinct (equal bases are merged), and the size grows by one exactly for a fresh key -/
 theorem upsert_map_spec (r : Nat) (base : G) (k : Nat) (buf : List (G × Nat)) :
@@ -129,55 +141,64 @@ theorem upsert_map_spec (r : Nat) (base : G) (k : Nat) (buf : List (G × Nat)) :
     pairs added so far", for every `bufSize`, and never panics -/
 theorem HashMapAcc.add_inv (ok : MsmOK G cfg P) (hr0 : 0 < cfg.r) (hrB : cfg.r ≤ B ^ cfg.limbs)
     (hP : ∀ v < cfg.r, P (cfg.intoBigint v)) {s : HashMapAcc G} {total : G}
-    (h : HashMapAcc.Inv cfg s total) (b : G) (k : Nat) (hb : cfg.r • b = 0) :
-    ∃ s', s.add cfg b k = .ok s' ∧ s'.bufSize = s.bufSize ∧ HashMapAcc.Inv cfg s' (total + k • b) :=
-  Ark.Msm.HashMapAcc.add_inv ok hr0 hrB hP h b k hb
+    (h : HashMapAcc.Inv cfg s total) (b : G) (k : Nat) (hb : cfg.r • b = 0)
+    (hlen : s.buffer.length + 1 < 2 ^ 64) :
+    ∃ s', s.add cfg b k = .ok s' ∧ s'.bufSize = s.bufSize ∧ s'.buffer.length ≤ s.buffer.length + 1 ∧
+      HashMapAcc.Inv cfg s' (total + k • b) :=
+  Ark.Msm.HashMapAcc.add_inv ok hr0 hrB hP h b k hb hlen
 
+omit [DecidableEq G] in
 theorem HashMapAcc.finalize_spec (ok : MsmOK G cfg P) (hrB : cfg.r ≤ B ^ cfg.limbs)
     (hP : ∀ v < cfg.r, P (cfg.intoBigint v)) {s : HashMapAcc G} {total : G}
-    (h : HashMapAcc.Inv cfg s total) : s.finalize cfg = .ok total :=
-  Ark.Msm.HashMapAcc.finalize_inv ok hrB hP h
+    (h : HashMapAcc.Inv cfg s total) (hlen : s.buffer.length < 2 ^ 64) : s.finalize cfg = .ok total :=
+  Ark.Msm.HashMapAcc.finalize_inv ok hrB hP h hlen
 
 /-- monotone history for the hash-map accumulator -/
 theorem HashMapAcc.history_spec (ok : MsmOK G cfg P) (hr0 : 0 < cfg.r) (hrB : cfg.r ≤ B ^ cfg.limbs)
     (hP : ∀ v < cfg.r, P (cfg.intoBigint v)) (adds : List (G × Nat)) (s : HashMapAcc G) (total : G)
-    (h : HashMapAcc.Inv cfg s total) (hord : ∀ a ∈ adds, cfg.r • a.1 = 0) :
+    (h : HashMapAcc.Inv cfg s total) (hord : ∀ a ∈ adds, cfg.r • a.1 = 0)
+    (hB : s.buffer.length + adds.length < 2 ^ 64 ∨ (s.bufSize < 2 ^ 64 ∧ s.buffer.length < s.bufSize)) :
     ∃ s', HashMapAcc.addAll cfg s adds = .ok s' ∧ s'.bufSize = s.bufSize ∧
-      HashMapAcc.Inv cfg s' (total + natPairSum adds) :=
-  HashMapAcc.addAll_inv ok hr0 hrB hP adds s total h hord
+      s'.buffer.length < 2 ^ 64 ∧ HashMapAcc.Inv cfg s' (total + natPairSum adds) :=
+  HashMapAcc.addAll_inv ok hr0 hrB hP adds s total h hord hB
 
 /-- `new(bufSize)`, any sequence of `add`s whose bases are killed by `r`, `finalize`: the result is `Σ k • b`
     (no condition on the scalars `k`: they are reduced modulo `r` on entry) -/
 theorem HashMapAcc.run_spec (ok : MsmOK G cfg P) (hr0 : 0 < cfg.r) (hrB : cfg.r ≤ B ^ cfg.limbs)
     (hP : ∀ v < cfg.r, P (cfg.intoBigint v)) (bufSize : Nat) (adds : List (G × Nat))
-    (hord : ∀ a ∈ adds, cfg.r • a.1 = 0) :
+    (hord : ∀ a ∈ adds, cfg.r • a.1 = 0)
+    (hB : adds.length < 2 ^ 64 ∨ (0 < bufSize ∧ bufSize < 2 ^ 64)) :
     HashMapAcc.run cfg bufSize adds = .ok (natPairSum adds) :=
-  HashMapAcc.run_ok ok hr0 hrB hP bufSize adds hord
+  HashMapAcc.run_ok ok hr0 hrB hP bufSize adds hord hB
 
+omit [DecidableEq G] in
 /-- the flush does not depend on the iteration order of the map -/
 theorem HashMapAcc.flush_perm (ok : MsmOK G cfg P) (hrB : cfg.r ≤ B ^ cfg.limbs)
     (hP : ∀ v < cfg.r, P (cfg.intoBigint v)) {buf buf' : List (G × Nat)} (hp : buf.Perm buf')
-    (h : ∀ e ∈ buf, e.2 < cfg.r) :
+    (h : ∀ e ∈ buf, e.2 < cfg.r) (hlen : buf.length < 2 ^ 64) :
     msmBigint cfg (buf'.map (·.1)) (buf'.map (fun e => cfg.intoBigint e.2))
       = msmBigint cfg (buf.map (·.1)) (buf.map (fun e => cfg.intoBigint e.2)) :=
-  Ark.Msm.HashMapAcc.flush_perm ok hrB hP hp h
+  Ark.Msm.HashMapAcc.flush_perm ok hrB hP hp h hlen
 
 /-- the association list stands for a hash map: reordering it (at any point of the history, to any
     permutation) changes neither `add`'s behaviour nor the final outcome.  No torsion hypothesis here. -/
 theorem HashMapAcc.order_irrelevant (ok : MsmOK G cfg P) (hr0 : 0 < cfg.r) (hrB : cfg.r ≤ B ^ cfg.limbs)
     (hP : ∀ v < cfg.r, P (cfg.intoBigint v)) (adds : List (G × Nat)) (s s' : HashMapAcc G)
     (he : s.buffer.Perm s'.buffer ∧ s.result = s'.result ∧ s.bufSize = s'.bufSize)
-    (hn : (s.buffer.map (·.1)).Nodup) (hlt : ∀ e ∈ s.buffer, e.2 < cfg.r) :
+    (hn : (s.buffer.map (·.1)).Nodup) (hlt : ∀ e ∈ s.buffer, e.2 < cfg.r)
+    (hB : s.buffer.length + adds.length < 2 ^ 64 ∨ (s.bufSize < 2 ^ 64 ∧ s.buffer.length < s.bufSize)) :
     HashMapAcc.run.go cfg s adds = HashMapAcc.run.go cfg s' adds :=
-  HashMapAcc.run_go_equiv ok hr0 hrB hP adds s s' he hn hlt
+  HashMapAcc.run_go_equiv ok hr0 hrB hP adds s s' he hn hlt hB
 
 /-! ## 15. no panics -/
 
+omit [DecidableEq G] in
 theorem msmChunksWith_no_panic (ok : MsmOK G cfg P) (hrB : cfg.r ≤ B ^ cfg.limbs)
     (hP : ∀ v < cfg.r, P (cfg.intoBigint v)) (step : Nat) (hstep : 0 < step)
-    (bases : List G) (ks : List Nat) (hk : ∀ k ∈ ks, k < cfg.r) :
+    (bases : List G) (ks : List Nat) (hk : ∀ k ∈ ks, k < cfg.r)
+    (hb : step < 2 ^ 64 ∨ ks.length < 2 ^ 64) :
     msmChunksWith step cfg bases ks = .panic ↔ bases.length < ks.length := by
-  rw [msmChunksWith_spec ok hrB hP step hstep bases ks hk]
+  rw [msmChunksWith_spec ok hrB hP step hstep bases ks hk hb]
   split
   · constructor
     · intro h; cases h
@@ -186,22 +207,28 @@ theorem msmChunksWith_no_panic (ok : MsmOK G cfg P) (hrB : cfg.r ≤ B ^ cfg.lim
     · intro _; omega
     · intro _; rfl
 
+omit [DecidableEq G] in
 theorem Chunked.run_no_panic (ok : MsmOK G cfg P) (bufSize : Nat) (adds : List (G × List Nat))
-    (hP : ∀ a ∈ adds, P a.2) : Chunked.run cfg bufSize adds ≠ .panic := by
-  rw [Chunked.run_spec ok bufSize adds hP]; intro h; cases h
+    (hP : ∀ a ∈ adds, P a.2) (hB : adds.length < 2 ^ 64 ∨ (0 < bufSize ∧ bufSize < 2 ^ 64)) :
+    Chunked.run cfg bufSize adds ≠ .panic := by
+  rw [Chunked.run_spec ok bufSize adds hP hB]; intro h; cases h
 
 theorem HashMapAcc.run_no_panic (ok : MsmOK G cfg P) (hr0 : 0 < cfg.r) (hrB : cfg.r ≤ B ^ cfg.limbs)
     (hP : ∀ v < cfg.r, P (cfg.intoBigint v)) (bufSize : Nat) (adds : List (G × Nat))
-    (hord : ∀ a ∈ adds, cfg.r • a.1 = 0) : HashMapAcc.run cfg bufSize adds ≠ .panic := by
-  rw [HashMapAcc.run_spec ok hr0 hrB hP bufSize adds hord]; intro h; cases h
+    (hord : ∀ a ∈ adds, cfg.r • a.1 = 0)
+    (hB : adds.length < 2 ^ 64 ∨ (0 < bufSize ∧ bufSize < 2 ^ 64)) :
+    HashMapAcc.run cfg bufSize adds ≠ .panic := by
+  rw [HashMapAcc.run_spec ok hr0 hrB hP bufSize adds hord hB]; intro h; cases h
 
 /-! ## the instance `P = InRange cfg` (what part A proves about `msm_bigint`) -/
 
+omit [DecidableEq G] in
 /-- field elements `k < r` are in the scalar domain of `msm_bigint` -/
 theorem inRange_of_lt (hN : 0 < cfg.limbs) (hr : cfg.r < B ^ cfg.limbs) :
     ∀ v < cfg.r, InRange cfg (cfg.intoBigint v) :=
   fun v hv => inRange_intoBigint cfg hN hr v hv
 
+omit [DecidableEq G] in
 theorem msmChunks_spec_inRange (ok : MsmOK G cfg (InRange cfg)) (hN : 0 < cfg.limbs)
     (hr : cfg.r < B ^ cfg.limbs) (bases : List G) (ks : List Nat) (hk : ∀ k ∈ ks, k < cfg.r) :
     msmChunks cfg bases ks =
@@ -209,17 +236,20 @@ theorem msmChunks_spec_inRange (ok : MsmOK G cfg (InRange cfg)) (hN : 0 < cfg.li
       else .panic :=
   msmChunks_spec ok (Nat.le_of_lt hr) (inRange_of_lt hN hr) bases ks hk
 
+omit [DecidableEq G] in
 theorem Chunked.run_spec_inRange (ok : MsmOK G cfg (InRange cfg)) (bufSize : Nat)
     (adds : List (G × List Nat))
-    (hP : ∀ a ∈ adds, a.2.length = cfg.limbs ∧ WF a.2 ∧ value a.2 < 2 ^ cfg.numBits) :
+    (hP : ∀ a ∈ adds, a.2.length = cfg.limbs ∧ WF a.2 ∧ value a.2 < 2 ^ cfg.numBits)
+    (hB : adds.length < 2 ^ 64 ∨ (0 < bufSize ∧ bufSize < 2 ^ 64)) :
     Chunked.run cfg bufSize adds = .ok (pairSum adds) :=
-  Chunked.run_spec ok bufSize adds hP
+  Chunked.run_spec ok bufSize adds hP hB
 
 theorem HashMapAcc.run_spec_inRange (ok : MsmOK G cfg (InRange cfg)) (hN : 0 < cfg.limbs)
     (hr0 : 0 < cfg.r) (hr : cfg.r < B ^ cfg.limbs) (bufSize : Nat) (adds : List (G × Nat))
-    (hord : ∀ a ∈ adds, cfg.r • a.1 = 0) :
+    (hord : ∀ a ∈ adds, cfg.r • a.1 = 0)
+    (hB : adds.length < 2 ^ 64 ∨ (0 < bufSize ∧ bufSize < 2 ^ 64)) :
     HashMapAcc.run cfg bufSize adds = .ok (natPairSum adds) :=
-  HashMapAcc.run_spec ok hr0 (Nat.le_of_lt hr) (inRange_of_lt hN hr) bufSize adds hord
+  HashMapAcc.run_spec ok hr0 (Nat.le_of_lt hr) (inRange_of_lt hN hr) bufSize adds hord hB
 
 end
 
@@ -229,46 +259,61 @@ end
   with the sums the theorems predict, and the side conditions of the theorems hold on these inputs. -/
 
 /-- toy configuration: `r = 7`, `N = 1`, plain bucket method -/
-def toy : Cfg := ⟨7, 1, false⟩
+def toyB : Cfg := ⟨7, 1, false⟩
 /-- the same with `NEGATION_IS_CHEAP` (signed-digit method) -/
-def toyN : Cfg := ⟨7, 1, true⟩
+def toyBN : Cfg := ⟨7, 1, true⟩
 
 -- side conditions on the configuration
-example : 0 < toy.limbs ∧ 0 < toy.r ∧ toy.r < B ^ toy.limbs ∧ toy.numBits = 3 := by decide +kernel
+example : 0 < toyB.limbs ∧ 0 < toyB.r ∧ toyB.r < B ^ toyB.limbs ∧ toyB.numBits = 3 := by decide +kernel
 -- scalar-domain hypotheses
-example : ∀ a ∈ [((1 : ℤ), [3]), (5, [2]), (-2, [6])], InRange toy a.2 := by
+example : ∀ a ∈ [((1 : ZMod 7), 3), (5, 2), (1, 6)], toyB.r • a.1 = 0 := by decide
+
+-- the theorems apply to these inputs: every hypothesis except `MsmOK` (part A) is discharged here
+theorem toyB_inRange : ∀ a ∈ [((1 : ℤ), [3]), (5, [2]), (-2, [6])], InRange toyB a.2 := by
   intro a ha; simp only [List.mem_cons, List.not_mem_nil, or_false] at ha
   rcases ha with rfl | rfl | rfl <;> exact ⟨rfl, by simp [WF, B], by decide +kernel⟩
-example : ∀ a ∈ [((1 : ZMod 7), 3), (5, 2), (1, 6)], toy.r • a.1 = 0 := by decide
+
+example (ok : MsmOK ℤ toyB (InRange toyB)) (bufSize : Nat) :
+    Chunked.run toyB bufSize [((1 : ℤ), [3]), (5, [2]), (-2, [6])] = .ok 1 := by
+  rw [Chunked.run_spec_inRange ok bufSize _ toyB_inRange (Or.inl (by decide))]; decide +kernel
+
+example (ok : MsmOK (ZMod 7) toyB (InRange toyB)) (bufSize : Nat) :
+    HashMapAcc.run toyB bufSize [((1 : ZMod 7), 3), (5, 2), (1, 6)] = .ok 5 := by
+  rw [HashMapAcc.run_spec_inRange ok (by decide) (by decide) (by decide +kernel) bufSize _ (by decide)
+    (Or.inl (by decide))]
+  decide +kernel
+
+example (ok : MsmOK ℤ toyB (InRange toyB)) :
+    msmChunks toyB [(100 : ℤ), 1, 5, -2] [3, 2, 6] = .ok 1 := by
+  rw [msmChunks_spec_inRange ok (by decide) (by decide +kernel) _ _ (by decide)]; decide +kernel
 
 -- 12. msm_chunks: several chunks, skipped leading base, and the assert
-example : msmChunksWith 2 toy [(100 : ℤ), 1, 5, -2] [3, 2, 6] = .ok 1 := by decide +kernel
+example : msmChunksWith 2 toyB [(100 : ℤ), 1, 5, -2] [3, 2, 6] = .ok 1 := by decide +kernel
 example : msmSumNat ([(100 : ℤ), 1, 5, -2].drop 1) [3, 2, 6] = 1 := by decide
-example : msmChunksWith 1 toyN [(1 : ℤ), 5, -2] [3, 2, 6] = .ok 1 := by decide +kernel
-example : msmChunksWith 2 toy [(100 : ℤ), 1] [3, 2, 6] = .panic := by decide +kernel
+example : msmChunksWith 1 toyBN [(1 : ℤ), 5, -2] [3, 2, 6] = .ok 1 := by decide +kernel
+example : msmChunksWith 2 toyB [(100 : ℤ), 1] [3, 2, 6] = .panic := by decide +kernel
 
 -- 13. ChunkedPippenger: bufSize 0 (never flushes), 1 (always), 2 (flush + tail), 3 (exact), 5 (no flush)
 example : pairSum [((1 : ℤ), [3]), (5, [2]), (-2, [6])] = 1 := by decide +kernel
-example : Chunked.run toy 0 [((1 : ℤ), [3]), (5, [2]), (-2, [6])] = .ok 1 := by decide +kernel
-example : Chunked.run toy 1 [((1 : ℤ), [3]), (5, [2]), (-2, [6])] = .ok 1 := by decide +kernel
-example : Chunked.run toy 2 [((1 : ℤ), [3]), (5, [2]), (-2, [6])] = .ok 1 := by decide +kernel
-example : Chunked.run toyN 2 [((1 : ℤ), [3]), (5, [2]), (-2, [6])] = .ok 1 := by decide +kernel
-example : Chunked.run toy 3 [((1 : ℤ), [3]), (5, [2]), (-2, [6])] = .ok 1 := by decide +kernel
-example : Chunked.run toyN 5 [((1 : ℤ), [3]), (5, [2]), (-2, [6])] = .ok 1 := by decide +kernel
+example : Chunked.run toyB 0 [((1 : ℤ), [3]), (5, [2]), (-2, [6])] = .ok 1 := by decide +kernel
+example : Chunked.run toyB 1 [((1 : ℤ), [3]), (5, [2]), (-2, [6])] = .ok 1 := by decide +kernel
+example : Chunked.run toyB 2 [((1 : ℤ), [3]), (5, [2]), (-2, [6])] = .ok 1 := by decide +kernel
+example : Chunked.run toyBN 2 [((1 : ℤ), [3]), (5, [2]), (-2, [6])] = .ok 1 := by decide +kernel
+example : Chunked.run toyB 3 [((1 : ℤ), [3]), (5, [2]), (-2, [6])] = .ok 1 := by decide +kernel
+example : Chunked.run toyBN 5 [((1 : ℤ), [3]), (5, [2]), (-2, [6])] = .ok 1 := by decide +kernel
 -- the invariant after a two-step history with bufSize 2 (one flush): total = 3•1 + 2•5
-example : ∃ s', Chunked.addAll toy (Chunked.new 2) [((1 : ℤ), [3]), (5, [2])] = .ok s' ∧
-    s'.scalarsBuffer = [] ∧ s'.result = 13 := ⟨_, by decide +kernel, rfl, rfl⟩
+example : Chunked.addAll toyB (Chunked.new 2) [((1 : ℤ), [3]), (5, [2])] = .ok ⟨[], [], 13, 2⟩ := rfl
 
 -- 14. HashMapPippenger over ZMod 7: a merge (base 1 twice: 3 + 6 ≡ 2 mod 7), with and without flushes
 example : natPairSum [((1 : ZMod 7), 3), (5, 2), (1, 6)] = 5 := by decide +kernel
 example : upsert 7 (1 : ZMod 7) 6 [(1, 3), (5, 2)] = [(1, 2), (5, 2)] := by decide +kernel
-example : HashMapAcc.run toy 0 [((1 : ZMod 7), 3), (5, 2), (1, 6)] = .ok 5 := by decide +kernel
-example : HashMapAcc.run toy 1 [((1 : ZMod 7), 3), (5, 2), (1, 6)] = .ok 5 := by decide +kernel
-example : HashMapAcc.run toy 2 [((1 : ZMod 7), 3), (5, 2), (1, 6)] = .ok 5 := by decide +kernel
-example : HashMapAcc.run toyN 3 [((1 : ZMod 7), 3), (5, 2), (1, 6)] = .ok 5 := by decide +kernel
+example : HashMapAcc.run toyB 0 [((1 : ZMod 7), 3), (5, 2), (1, 6)] = .ok 5 := by decide +kernel
+example : HashMapAcc.run toyB 1 [((1 : ZMod 7), 3), (5, 2), (1, 6)] = .ok 5 := by decide +kernel
+example : HashMapAcc.run toyB 2 [((1 : ZMod 7), 3), (5, 2), (1, 6)] = .ok 5 := by decide +kernel
+example : HashMapAcc.run toyBN 3 [((1 : ZMod 7), 3), (5, 2), (1, 6)] = .ok 5 := by decide +kernel
 -- over ℤ the torsion hypothesis fails and so does the conclusion (merging reduces 3 + 6 to 2):
 -- the hypothesis `r • b = 0` of `HashMapAcc.run_spec` is needed
-example : HashMapAcc.run toy 3 [((1 : ℤ), 3), (5, 2), (1, 6)] = .ok 12 ∧
+example : HashMapAcc.run toyB 3 [((1 : ℤ), 3), (5, 2), (1, 6)] = .ok 12 ∧
     natPairSum [((1 : ℤ), 3), (5, 2), (1, 6)] = 19 := by decide +kernel
 
 end Ark.C05
